@@ -1,21 +1,1229 @@
-//! C08 — not built yet (stub).
+//! C08 — pruning, compaction, rewind, discard and reopen never change what a
+//! prunable MMR commits to or reports for live data.
+//!
+//! Part "store": histories of units of work on a `PMMRBackend`, driven the way
+//! `chain/src/txhashset/txhashset.rs` (`Extension`, `extending`, `TxHashSet::compact`)
+//! drives it, compared after every step with an unpruned reference
+//! (`refmmr::RefMmr`, own blake2b). Part "chain": `Chain::compact()` on the
+//! prepared base chain, before/after comparison and an in-horizon reorg.
 
+use crate::elems::{FixElem, VarElem};
 use crate::engine::*;
-use serde_json::Value;
+use crate::props::c02;
+use crate::refmmr::{self, RefMmr, H32};
+use crate::world::gen::{Neg, RawBlock, RawOut, RawTx};
+use crate::world::*;
+use crate::{ensure, fail};
+use croaring::Bitmap;
+use grin_core::core::hash::Hash;
+use grin_core::core::pmmr::{ReadablePMMR, ReadonlyPMMR, PMMR};
+use grin_core::ser::{PMMRIndexHashable, PMMRable, ProtocolVersion};
+use grin_store::pmmr::PMMRBackend;
+use proptest::prelude::*;
+use serde_derive::{Deserialize, Serialize};
+use serde_json::{json, Value};
+use std::collections::BTreeSet;
 
-pub fn run(_ctx: &Ctx) -> HResult<()> {
-	Err(HarnessError("C08 check not built yet".into()))
+const MAX_LEAVES: u64 = 400;
+const MAX_STEPS: usize = 40;
+
+fn h(x: &H32) -> Hash {
+	Hash::from_vec(&x[..])
 }
 
-pub fn replay(_ctx: &Ctx, _part: &str, _case: &Value) -> PResult {
+// ---------------------------------------------------------------- test elements
+
+pub trait TElem: PMMRable<E = Self> + PMMRIndexHashable + Clone + PartialEq + std::fmt::Debug {
+	/// payload number `serial` of a history with data seed `seed`
+	fn make(seed: u64, serial: u64) -> Self;
+	fn ser(&self) -> Vec<u8>;
+}
+
+impl TElem for FixElem {
+	fn make(seed: u64, serial: u64) -> Self {
+		// a few deliberate duplicates: equal data at different positions
+		let d = if serial % 7 == 3 { serial - 1 } else { serial };
+		let x = refmmr::blake(&[&seed.to_be_bytes(), &d.to_be_bytes()]);
+		let mut a = [0u8; 16];
+		a.copy_from_slice(&x[..16]);
+		FixElem(a)
+	}
+	fn ser(&self) -> Vec<u8> {
+		self.bytes()
+	}
+}
+
+impl TElem for VarElem {
+	fn make(seed: u64, serial: u64) -> Self {
+		let x = refmmr::blake(&[&seed.to_be_bytes(), &serial.to_be_bytes(), b"v"]);
+		let y = refmmr::blake(&[&x, b"w"]);
+		let l = 1 + (x[0] as usize % 40);
+		let mut v = x[1..].to_vec();
+		v.extend_from_slice(&y);
+		v.truncate(l);
+		VarElem(v)
+	}
+	fn ser(&self) -> Vec<u8> {
+		self.bytes()
+	}
+}
+
+// ---------------------------------------------------------------- explicit history (the replayable case)
+
+/// One "block": leaves appended, then leaves (insertion indices) removed. Like
+/// `Extension::apply_block`: outputs are pushed first, then inputs are pruned,
+/// and a block never spends its own outputs.
+#[derive(Clone, Debug, Serialize, Deserialize, PartialEq)]
+pub struct XBlock {
+	pub appends: u32,
+	pub removes: Vec<u64>,
+}
+
+#[derive(Clone, Debug, Serialize, Deserialize, PartialEq)]
+pub enum XStep {
+	/// one unit of work (one `txhashset::extending` call)
+	Unit {
+		/// boundary index to rewind to first (0 = empty MMR, k = state after the k-th block of the current branch)
+		rewind_to: Option<usize>,
+		blocks: Vec<XBlock>,
+		/// true: sync, false: discard
+		commit: bool,
+	},
+	/// `check_compact(size at boundary, removed positions of the blocks after it)`
+	Compact { cutoff: usize },
+	/// drop the backend and open it again from the same directory
+	Reopen,
+	/// non-prunable variable-size backend only: drop the backend, delete pmmr_size.bin and
+	/// open again. This is what a fast-sync receiver does: the txhashset archive carries
+	/// kernel/pmmr_data.bin and kernel/pmmr_hash.bin but no size file (txhashset.rs
+	/// file_list), so AppendOnlyFile::open rebuilds it from the data file.
+	ReopenWithoutSizeFile,
+}
+
+#[derive(Clone, Debug, Serialize, Deserialize, PartialEq)]
+pub struct History {
+	/// true: VarElem on a non-prunable backend; false: FixElem on a prunable backend
+	pub var: bool,
+	pub seed: u64,
+	pub steps: Vec<XStep>,
+}
+
+// ---------------------------------------------------------------- raw (generated) history
+
+#[derive(Clone, Debug)]
+pub enum Spend {
+	Nothing,
+	/// a sibling pair of leaves
+	Pair(u16),
+	/// every live leaf of an aligned subtree of height 1..=4
+	Subtree(u8, u16),
+	/// every live leaf under one peak of the current MMR
+	Peak(u16),
+	/// every other live leaf in a window (start pick, length, parity)
+	Alternate(u16, u8, bool),
+	/// up to k live leaves that a rewind re-added
+	Readded(u8),
+	/// every live leaf before a boundary
+	AllBefore(u16),
+	/// a few single leaves
+	Few(Vec<u16>),
+}
+
+#[derive(Clone, Debug)]
+pub struct SBlk {
+	pub appends: u16,
+	pub spend: Spend,
+}
+
+#[derive(Clone, Debug)]
+pub enum SStep {
+	Unit {
+		/// number of blocks to rewind first (0 = rewind to the current tip, as the chain does "for consistency")
+		rewind: Option<u8>,
+		blocks: Vec<SBlk>,
+		commit: bool,
+	},
+	Compact(u16),
+	Reopen,
+	ReopenWithoutSizeFile,
+}
+
+#[derive(Clone, Debug)]
+pub struct SCase {
+	pub var: bool,
+	pub seed: u64,
+	pub steps: Vec<SStep>,
+}
+
+fn spend_strategy() -> impl Strategy<Value = Spend> {
+	prop_oneof![
+		3 => Just(Spend::Nothing),
+		3 => any::<u16>().prop_map(Spend::Pair),
+		4 => (1u8..=4, any::<u16>()).prop_map(|(hh, p)| Spend::Subtree(hh, p)),
+		2 => any::<u16>().prop_map(Spend::Peak),
+		2 => (any::<u16>(), 2u8..=32, any::<bool>()).prop_map(|(p, l, b)| Spend::Alternate(p, l, b)),
+		2 => (1u8..=8).prop_map(Spend::Readded),
+		2 => any::<u16>().prop_map(Spend::AllBefore),
+		3 => prop::collection::vec(any::<u16>(), 1..=5).prop_map(Spend::Few),
+	]
+}
+
+fn blk_strategy() -> impl Strategy<Value = SBlk> {
+	(prop_oneof![3 => 0u16..=3, 6 => 1u16..=16, 2 => 17u16..=64, 1 => 65u16..=130], spend_strategy()).prop_map(|(appends, spend)| SBlk { appends, spend })
+}
+
+fn step_strategy(var: bool) -> impl Strategy<Value = SStep> {
+	let unit = (
+		prop_oneof![5 => Just(None), 1 => Just(Some(0u8)), 5 => (1u8..=3).prop_map(Some), 2 => (4u8..=40).prop_map(Some)],
+		prop_oneof![1 => Just(0usize), 7 => Just(1usize), 2 => Just(2usize), 1 => Just(3usize)].prop_flat_map(|n| prop::collection::vec(blk_strategy(), n)),
+		prop::bool::weighted(0.8),
+	)
+		.prop_map(|(rewind, blocks, commit)| SStep::Unit { rewind, blocks, commit });
+	if var {
+		prop_oneof![10 => unit, 2 => Just(SStep::Reopen), 1 => Just(SStep::ReopenWithoutSizeFile)].boxed()
+	} else {
+		prop_oneof![10 => unit, 3 => any::<u16>().prop_map(SStep::Compact), 2 => Just(SStep::Reopen)].boxed()
+	}
+}
+
+pub fn store_strategy() -> impl Strategy<Value = SCase> {
+	prop::bool::weighted(0.2).prop_flat_map(|var| {
+		(any::<u64>(), prop::collection::vec(step_strategy(var), 1..=MAX_STEPS)).prop_map(move |(seed, steps)| SCase { var, seed, steps })
+	})
+}
+
+fn pick_idx(p: u16, len: usize) -> usize {
+	((p as usize) * len) >> 16
+}
+
+/// Resolve the shaped choices against a replay of the history itself (leaf
+/// count, live flags, boundary log, horizon floor). Uses no code under test.
+pub fn resolve(raw: &SCase) -> History {
+	#[derive(Clone)]
+	struct M {
+		alive: Vec<bool>,
+		blocks: Vec<(u64, Vec<u64>)>,
+		readded: BTreeSet<u64>,
+	}
+	let n_at = |m: &M, k: usize| if k == 0 { 0 } else { m.blocks[k - 1].0 };
+	let mut m = M {
+		alive: vec![],
+		blocks: vec![],
+		readded: BTreeSet::new(),
+	};
+	let mut floor = 0usize;
+	let mut steps = vec![];
+	for st in &raw.steps {
+		match st {
+			SStep::Reopen => steps.push(XStep::Reopen),
+			SStep::ReopenWithoutSizeFile => steps.push(if raw.var { XStep::ReopenWithoutSizeFile } else { XStep::Reopen }),
+			SStep::Compact(p) => {
+				if raw.var {
+					continue;
+				}
+				let len = m.blocks.len();
+				let cutoff = floor + pick_idx(*p, len - floor + 1);
+				floor = cutoff;
+				steps.push(XStep::Compact { cutoff });
+			}
+			SStep::Unit { rewind, blocks, commit } => {
+				let snap = m.clone();
+				let rewind_to = rewind.map(|d| {
+					let len = m.blocks.len();
+					let t = len.saturating_sub(d as usize).max(floor);
+					while m.blocks.len() > t {
+						let (_, removed) = m.blocks.pop().unwrap();
+						for r in removed {
+							m.alive[r as usize] = true;
+							m.readded.insert(r);
+						}
+						let n = n_at(&m, m.blocks.len());
+						m.alive.truncate(n as usize);
+						m.readded = m.readded.iter().copied().filter(|x| *x < n).collect();
+					}
+					t
+				});
+				let mut xb = vec![];
+				for b in blocks {
+					let n0 = m.alive.len() as u64;
+					let appends = (b.appends as u64).min(MAX_LEAVES.saturating_sub(n0)) as u32;
+					let live: Vec<u64> = (0..n0).filter(|i| m.alive[*i as usize]).collect();
+					let few = |ps: &[u16]| -> Vec<u64> {
+						let mut c = live.clone();
+						let mut out = vec![];
+						for p in ps {
+							if c.is_empty() {
+								break;
+							}
+							out.push(c.remove(pick_idx(*p, c.len())));
+						}
+						out
+					};
+					let in_range = |a: u64, e: u64| -> Vec<u64> { live.iter().copied().filter(|i| *i >= a && *i < e).collect() };
+					let mut removes: Vec<u64> = if raw.var {
+						vec![]
+					} else {
+						match &b.spend {
+							Spend::Nothing => vec![],
+							Spend::Pair(p) => {
+								let pairs: Vec<u64> = (0..n0 / 2).filter(|k| m.alive[2 * *k as usize] && m.alive[2 * *k as usize + 1]).collect();
+								if pairs.is_empty() {
+									few(&[*p])
+								} else {
+									let k = pairs[pick_idx(*p, pairs.len())];
+									vec![2 * k, 2 * k + 1]
+								}
+							}
+							Spend::Subtree(hh, p) => {
+								let w = 1u64 << *hh;
+								let c: Vec<u64> = (0..n0 / w).filter(|k| !in_range(k * w, (k + 1) * w).is_empty()).collect();
+								if c.is_empty() {
+									few(&[*p])
+								} else {
+									let k = c[pick_idx(*p, c.len())];
+									in_range(k * w, (k + 1) * w)
+								}
+							}
+							Spend::Peak(p) => {
+								let mut ranges = vec![];
+								let mut start = 0u64;
+								for k in (0..32).rev() {
+									if n0 & (1u64 << k) != 0 {
+										ranges.push((start, start + (1u64 << k)));
+										start += 1u64 << k;
+									}
+								}
+								let c: Vec<(u64, u64)> = ranges.into_iter().filter(|(a, e)| !in_range(*a, *e).is_empty()).collect();
+								if c.is_empty() {
+									vec![]
+								} else {
+									let (a, e) = c[pick_idx(*p, c.len())];
+									in_range(a, e)
+								}
+							}
+							Spend::Alternate(p, l, par) => {
+								let a = pick_idx(*p, n0 as usize) as u64;
+								in_range(a, (a + *l as u64).min(n0)).into_iter().filter(|i| (i % 2 == 1) == *par).collect()
+							}
+							Spend::Readded(k) => m.readded.iter().copied().filter(|i| *i < n0 && m.alive[*i as usize]).take(*k as usize).collect(),
+							Spend::AllBefore(p) => {
+								let bidx = pick_idx(*p, m.blocks.len() + 1);
+								in_range(0, n_at(&m, bidx))
+							}
+							Spend::Few(ps) => few(ps),
+						}
+					};
+					removes.sort_unstable();
+					removes.dedup();
+					for _ in 0..appends {
+						m.alive.push(true);
+					}
+					for r in &removes {
+						m.alive[*r as usize] = false;
+					}
+					m.blocks.push((m.alive.len() as u64, removes.clone()));
+					xb.push(XBlock { appends, removes });
+				}
+				if !*commit {
+					m = snap;
+				}
+				steps.push(XStep::Unit {
+					rewind_to,
+					blocks: xb,
+					commit: *commit,
+				});
+			}
+		}
+	}
+	History {
+		var: raw.var,
+		seed: raw.seed,
+		steps,
+	}
+}
+
+// ---------------------------------------------------------------- the unpruned reference
+
+#[derive(Clone)]
+struct Blk {
+	n_after: u64,
+	removed: Vec<u64>,
+}
+
+/// Unpruned reference: every leaf ever appended on the current branch with
+/// its live flag, and the boundary log with the removals of each block.
+#[derive(Clone)]
+struct Ref {
+	leaves: Vec<Vec<u8>>,
+	alive: Vec<bool>,
+	blocks: Vec<Blk>,
+	/// statistics only
+	readded: BTreeSet<u64>,
+}
+
+impl Ref {
+	fn n_at(&self, k: usize) -> u64 {
+		if k == 0 {
+			0
+		} else {
+			self.blocks[k - 1].n_after
+		}
+	}
+	fn size_at(&self, k: usize) -> u64 {
+		refmmr::ref_mmr_size(self.n_at(k)) as u64
+	}
+	fn n(&self) -> u64 {
+		self.leaves.len() as u64
+	}
+}
+
+fn pos_of(leaf_idx: u64) -> u64 {
+	refmmr::ref_leaf_pos(leaf_idx) as u64
+}
+
+/// 1-based positions, as `CommitPos.pos` / the block input bitmaps hold them
+fn bitmap_of(leaf_idxs: impl Iterator<Item = u64>) -> Bitmap {
+	leaf_idxs.map(|i| (pos_of(i) + 1) as u32).collect()
+}
+
+fn open_backend<T: TElem>(dir: &std::path::Path, prunable: bool) -> Result<PMMRBackend<T>, Fail> {
+	PMMRBackend::<T>::new(dir, prunable, ProtocolVersion(1), None).map_err(|e| Fail::new("open-err", format!("PMMRBackend::new: {}", e)))
+}
+
+/// Everything the statement says about the observable state, against the reference.
+fn check_state<T: TElem>(backend: &mut PMMRBackend<T>, size: u64, m: &Ref, elems: &[T], prunable: bool, synced: bool, when: &str) -> PResult {
+	let r = RefMmr::build(&m.leaves);
+	let n = m.n();
+	ensure!(size == r.size(), "size", "{}: tracked PMMR size {} reference {} ({} leaves)", when, size, r.size(), n);
+	let rroot = r.root();
+	let lp = r.leaf_positions();
+	let alive_pos: Vec<u64> = (0..n as usize).filter(|i| m.alive[*i]).map(|i| lp[i]).collect();
+	{
+		let p = PMMR::<T, _>::at(backend, size);
+		ensure!(p.unpruned_size() == r.size(), "size", "{}: unpruned_size {} reference {}", when, p.unpruned_size(), r.size());
+		let root = p.root().map_err(|e| Fail::new("root-err", format!("{}: root(): {}", when, e)))?;
+		ensure!(root == h(&rroot), "root", "{}: root {:?} reference {:?} ({} leaves, {} live)", when, root, h(&rroot), n, alive_pos.len());
+		let ph: Vec<Hash> = r.peaks.iter().map(|&i| h(&r.nodes[i].hash)).collect();
+		ensure!(p.peaks() == ph, "peaks", "{}: peak hashes differ from the reference ({} peaks)", when, ph.len());
+		for i in 0..n as usize {
+			let pos = lp[i];
+			if m.alive[i] {
+				let d = p.get_data(pos);
+				ensure!(d.as_ref().map(|x| x.ser()) == Some(m.leaves[i].clone()), "live-leaf-data", "{}: get_data of live leaf {} (pos {}) = {:?}, reference {:?}", when, i, pos, d, m.leaves[i]);
+				let g = p.get_hash(pos);
+				ensure!(g == Some(h(&r.nodes[pos as usize].hash)), "live-leaf-hash", "{}: get_hash of live leaf {} (pos {}) = {:?}", when, i, pos, g);
+				let proof = p.merkle_proof(pos).map_err(|e| Fail::new("proof-err", format!("{}: merkle_proof of live leaf {} (pos {}): {}", when, i, pos, e)))?;
+				ensure!(proof.mmr_size == size, "proof-size", "{}: proof.mmr_size {} != {}", when, proof.mmr_size, size);
+				let rp: Vec<Hash> = r.merkle_path(pos).iter().map(h).collect();
+				ensure!(
+					proof.path == rp,
+					"proof-path",
+					"{}: Merkle path of live leaf {} (pos {}) has {} hashes and differs from the reference path ({} hashes)",
+					when,
+					i,
+					pos,
+					proof.path.len(),
+					rp.len()
+				);
+				let raw_path: Vec<H32> = proof
+					.path
+					.iter()
+					.map(|x| {
+						let mut a = [0u8; 32];
+						a.copy_from_slice(x.as_bytes());
+						a
+					})
+					.collect();
+				ensure!(r.verify_path(&rroot, &m.leaves[i], pos, &raw_path), "proof-unverifiable", "{}: proof of live leaf {} (pos {}) does not verify against the reference root", when, i, pos);
+				ensure!(proof.verify(h(&rroot), &elems[i], pos).is_ok(), "proof-rejected", "{}: MerkleProof::verify rejects the proof of live leaf {} (pos {}) against the reference root", when, i, pos);
+			} else {
+				// only reachable on the prunable backend
+				let d = p.get_data(pos);
+				ensure!(d.is_none(), "removed-leaf-data", "{}: get_data of removed leaf {} (pos {}) = {:?}", when, i, pos, d);
+				// documented: "Return None if pos is a leaf and it has been removed (or pruned or compacted)";
+				// PMMR::prune relies on it to refuse a second spend
+				let g = p.get_hash(pos);
+				ensure!(g.is_none(), "removed-leaf-hash", "{}: get_hash of removed leaf {} (pos {}) = {:?}", when, i, pos, g);
+			}
+		}
+		// a hash that is reported for an interior node is the reference hash
+		// (pruned interior nodes need not be readable)
+		for node in &r.nodes {
+			if node.height > 0 {
+				if let Some(g) = p.get_hash(node.pos) {
+					ensure!(g == h(&node.hash), "node-hash", "{}: interior node {} (height {}) reports {:?}, reference {:?}", when, node.pos, node.height, g, h(&node.hash));
+				}
+			}
+		}
+		ensure!(p.get_hash(size).is_none() && p.get_data(size).is_none(), "beyond-size", "{}: something readable at pos == size {}", when, size);
+		if prunable {
+			let got: Vec<u64> = p.leaf_pos_iter().collect();
+			ensure!(got == alive_pos, "leaf-set", "{}: leaf_pos_iter has {} entries, reference live set {}; first difference {:?}", when, got.len(), alive_pos.len(), first_diff(&got, &alive_pos));
+			ensure!(p.n_unpruned_leaves() == alive_pos.len() as u64, "leaf-count", "{}: n_unpruned_leaves {} reference {}", when, p.n_unpruned_leaves(), alive_pos.len());
+			let gi: Vec<u64> = p.leaf_idx_iter(0).collect();
+			let wi: Vec<u64> = (0..n).filter(|i| m.alive[*i as usize]).collect();
+			ensure!(gi == wi, "leaf-idx-set", "{}: leaf_idx_iter(0) differs from the live insertion indices; first difference {:?}", when, first_diff(&gi, &wi));
+		} else if synced {
+			// the non-prunable backend answers from the synced file size; leaf_pos_iter is unimplemented there
+			ensure!(p.n_unpruned_leaves() == n, "leaf-count", "{}: non-prunable n_unpruned_leaves {} reference {}", when, p.n_unpruned_leaves(), n);
+		}
+		if let Err(e) = p.validate() {
+			fail!("validate", "{}: PMMR::validate: {}", when, e);
+		}
+	}
+	{
+		// the read-only view the chain uses for the UTXO set
+		let ro = ReadonlyPMMR::<T, _>::at(&*backend, size);
+		let root = ro.root().map_err(|e| Fail::new("root-err", format!("{}: readonly root(): {}", when, e)))?;
+		ensure!(root == h(&rroot), "root", "{}: readonly root differs from the reference", when);
+		let (_, all) = ro.elements_from_pmmr_index(1, n + 8, None);
+		let want: Vec<Vec<u8>> = (0..n as usize).filter(|i| m.alive[*i]).map(|i| m.leaves[i].clone()).collect();
+		let got: Vec<Vec<u8>> = all.iter().map(|x| x.ser()).collect();
+		ensure!(got == want, "live-enumeration", "{}: elements_from_pmmr_index lists {} elements, reference {} live leaves", when, got.len(), want.len());
+	}
+	if synced {
+		let bs = backend.unpruned_size();
+		ensure!(bs == r.size(), "backend-size", "{}: backend.unpruned_size() {} reference {}", when, bs, r.size());
+	}
 	Ok(())
 }
 
-pub fn part(_ctx: &Ctx, _part: &str, _seed: u64, _cases: u32) -> Option<(Value, Fail)> {
+fn first_diff(a: &[u64], b: &[u64]) -> Option<(usize, Option<u64>, Option<u64>)> {
+	for i in 0..a.len().max(b.len()) {
+		if a.get(i) != b.get(i) {
+			return Some((i, a.get(i).copied(), b.get(i).copied()));
+		}
+	}
 	None
 }
 
-/// `gv child x C08 <args...>`
+#[derive(Default)]
+struct Stats {
+	reopen: u32,
+	discard: u32,
+	rewind: u32,
+	rewind_noop: u32,
+	max_rewind_depth: usize,
+	multi_block_units: u32,
+	compactions: u32,
+	eff_compactions: u32,
+	hashes_removed: u64,
+	whole_peak_pruned: bool,
+	readded_removed_again: u32,
+	/// rewinds after an effective compaction that un-spent a leaf before the cutoff
+	rewind_unspends_kept: u32,
+	second_after_appends: bool,
+	max_leaves: u64,
+	removed_total: u64,
+	unsynced_checks: u32,
+	size_file_rebuilt: u32,
+}
+
+pub fn check_store(ctx: &Ctx, hist: &History, counting: bool) -> PResult {
+	let dir = ctx.scratch_dir("s");
+	let r = if hist.var { run_history::<VarElem>(ctx, hist, counting, &dir) } else { run_history::<FixElem>(ctx, hist, counting, &dir) };
+	let _ = std::fs::remove_dir_all(&dir);
+	r
+}
+
+fn run_history<T: TElem>(ctx: &Ctx, hist: &History, counting: bool, dir: &std::path::Path) -> PResult {
+	let prunable = !hist.var;
+	let mut backend: PMMRBackend<T> = open_backend(dir, prunable)?;
+	// PMMRHandle { backend, size }: the size the handle carries between units
+	let mut size = backend.unpruned_size();
+	let mut m = Ref {
+		leaves: vec![],
+		alive: vec![],
+		blocks: vec![],
+		readded: BTreeSet::new(),
+	};
+	let mut elems: Vec<T> = vec![];
+	let mut serial = 0u64;
+	let mut floor = 0usize;
+	let mut st = Stats::default();
+	// pruned[i]: leaf physically compacted away according to the protocol (statistics only)
+	let mut pruned: Vec<bool> = vec![];
+	let mut last_eff_cutoff_n: Option<u64> = None;
+	let mut appended_since_eff = false;
+	check_state(&mut backend, size, &m, &elems, prunable, true, "start")?;
+	for (si, step) in hist.steps.iter().enumerate() {
+		match step {
+			XStep::Unit { rewind_to, blocks, commit } => {
+				let snap = (m.clone(), elems.clone());
+				let ext_size;
+				{
+					// Extension::new: one PMMR::at(&mut backend, handle.size) for the whole unit
+					let mut p = PMMR::<T, _>::at(&mut backend, size);
+					if let Some(t) = *rewind_to {
+						let len = m.blocks.len();
+						ensure!(t >= floor && t <= len, "harness:bad-history", "step {}: rewind to boundary {} outside [{}, {}]", si, t, floor, len);
+						if t == len {
+							// Extension::rewind with head == header: "truncate the MMRs at header for consistency"
+							p.rewind(m.size_at(len), &Bitmap::new()).map_err(|e| Fail::new("rewind-err", format!("step {}: {}", si, e)))?;
+							st.rewind_noop += 1;
+						} else {
+							st.rewind += 1;
+							st.max_rewind_depth = st.max_rewind_depth.max(len - t);
+							let mut unspent_kept = false;
+							// Extension::rewind: block by block, each with the positions that block spent
+							for j in ((t + 1)..=len).rev() {
+								let blk = m.blocks.pop().unwrap();
+								let bm = bitmap_of(blk.removed.iter().copied());
+								p.rewind(m.size_at(j - 1), &bm).map_err(|e| Fail::new("rewind-err", format!("step {}: rewind of block {}: {}", si, j, e)))?;
+								for r in &blk.removed {
+									m.alive[*r as usize] = true;
+									m.readded.insert(*r);
+									if let Some(cn) = last_eff_cutoff_n {
+										if *r < cn {
+											unspent_kept = true;
+										}
+									}
+								}
+								let n = m.n_at(j - 1) as usize;
+								m.leaves.truncate(n);
+								m.alive.truncate(n);
+								elems.truncate(n);
+								m.readded = m.readded.iter().copied().filter(|x| (*x as usize) < n).collect();
+							}
+							if unspent_kept {
+								st.rewind_unspends_kept += 1;
+							}
+						}
+					}
+					if blocks.len() > 1 {
+						st.multi_block_units += 1;
+					}
+					for (bi, b) in blocks.iter().enumerate() {
+						let n0 = m.n();
+						ensure!(n0 + b.appends as u64 <= 4 * MAX_LEAVES, "harness:bad-history", "step {}: too many leaves", si);
+						for _ in 0..b.appends {
+							let e = T::make(hist.seed, serial);
+							serial += 1;
+							let want = pos_of(m.n());
+							let pos = p.push(&e).map_err(|e| Fail::new("push-err", format!("step {} block {}: push of leaf {}: {}", si, bi, m.n(), e)))?;
+							ensure!(pos == want, "push-pos", "step {} block {}: push returned pos {} for leaf {}, reference {}", si, bi, pos, m.n(), want);
+							m.leaves.push(e.ser());
+							m.alive.push(true);
+							elems.push(e);
+							appended_since_eff = true;
+						}
+						for r in &b.removes {
+							ensure!(prunable && *r < n0 && m.alive[*r as usize], "harness:bad-history", "step {} block {}: removal of leaf {} which is not a live leaf older than the block", si, bi, r);
+							// Extension::apply_input: output_pmmr.prune(pos - 1); Ok(false) would be AlreadySpent
+							let ok = p.prune(pos_of(*r)).map_err(|e| Fail::new("prune-err", format!("step {} block {}: prune of leaf {}: {}", si, bi, r, e)))?;
+							ensure!(ok, "live-leaf-reported-spent", "step {} block {}: prune of live leaf {} (pos {}) returned false (already spent)", si, bi, r, pos_of(*r));
+							m.alive[*r as usize] = false;
+							st.removed_total += 1;
+							if m.readded.remove(r) {
+								st.readded_removed_again += 1;
+							}
+						}
+						m.blocks.push(Blk {
+							n_after: m.n(),
+							removed: b.removes.clone(),
+						});
+						ensure!(m.blocks.len() <= 400, "harness:bad-history", "too many blocks");
+					}
+					ext_size = p.size;
+				}
+				st.max_leaves = st.max_leaves.max(m.n());
+				// what the extension sees before it is committed (validate_roots, utxo_view, ... run here)
+				check_state(&mut backend, ext_size, &m, &elems, prunable, false, &format!("step {} (unit, before {})", si, if *commit { "sync" } else { "discard" }))?;
+				st.unsynced_checks += 1;
+				if *commit {
+					backend.sync().map_err(|e| Fail::new("sync-err", format!("step {}: {}", si, e)))?;
+					size = ext_size;
+					check_state(&mut backend, size, &m, &elems, prunable, true, &format!("step {} (unit, after sync)", si))?;
+				} else {
+					backend.discard();
+					m = snap.0;
+					elems = snap.1;
+					st.discard += 1;
+					check_state(&mut backend, size, &m, &elems, prunable, true, &format!("step {} (unit, after discard)", si))?;
+				}
+			}
+			XStep::Compact { cutoff } => {
+				let len = m.blocks.len();
+				ensure!(prunable && *cutoff >= floor && *cutoff <= len, "harness:bad-history", "step {}: compaction at boundary {} outside [{}, {}] or on a non-prunable backend", si, cutoff, floor, len);
+				// TxHashSet::compact: input_pos_to_rewind(horizon_header, head_header) = OR of the
+				// input bitmaps of the blocks after the horizon; cutoff = horizon_header.output_mmr_size
+				let bm = bitmap_of(m.blocks[*cutoff..].iter().flat_map(|b| b.removed.iter().copied()));
+				let hs0 = backend.hash_size();
+				backend.check_compact(m.size_at(*cutoff), &bm).map_err(|e| Fail::new("compact-err", format!("step {}: check_compact: {}", si, e)))?;
+				let hs1 = backend.hash_size();
+				floor = *cutoff;
+				st.compactions += 1;
+				// statistics: which leaves are now physically gone
+				pruned.resize(m.n() as usize, false);
+				let keep: BTreeSet<u64> = m.blocks[*cutoff..].iter().flat_map(|b| b.removed.iter().copied()).collect();
+				for i in 0..m.n_at(*cutoff) as usize {
+					if !m.alive[i] && !keep.contains(&(i as u64)) {
+						pruned[i] = true;
+					}
+				}
+				if hs1 < hs0 {
+					st.eff_compactions += 1;
+					st.hashes_removed += hs0 - hs1;
+					if st.eff_compactions >= 2 && appended_since_eff {
+						st.second_after_appends = true;
+					}
+					last_eff_cutoff_n = Some(m.n_at(*cutoff));
+					appended_since_eff = false;
+					// a whole peak (height >= 1) of the current MMR pruned?
+					let mut start = 0u64;
+					for k in (1..32).rev() {
+						if m.n() & (1u64 << k) != 0 {
+							if (start..start + (1u64 << k)).all(|i| pruned[i as usize]) {
+								st.whole_peak_pruned = true;
+							}
+						}
+						if m.n() & (1u64 << k) != 0 {
+							start += 1u64 << k;
+						}
+					}
+				}
+				check_state(&mut backend, size, &m, &elems, prunable, true, &format!("step {} (after compaction at boundary {}, size {})", si, cutoff, m.size_at(*cutoff)))?;
+			}
+			XStep::Reopen | XStep::ReopenWithoutSizeFile => {
+				drop(backend);
+				if *step == XStep::ReopenWithoutSizeFile {
+					ensure!(hist.var, "harness:bad-history", "step {}: only the variable-size backend has a size file", si);
+					let _ = std::fs::remove_file(dir.join("pmmr_size.bin"));
+					st.size_file_rebuilt += 1;
+				}
+				backend = open_backend(dir, prunable)?;
+				// PMMRHandle::new: size = backend.unpruned_size()
+				let sz = backend.unpruned_size();
+				let want = refmmr::ref_mmr_size(m.n()) as u64;
+				ensure!(sz == want, "reopen-size", "step {}: unpruned_size() after reopen {} reference {}", si, sz, want);
+				size = sz;
+				st.reopen += 1;
+				check_state(&mut backend, size, &m, &elems, prunable, true, &format!("step {} (after reopen)", si))?;
+			}
+		}
+	}
+	drop(backend);
+	if counting {
+		let ev = &ctx.ev;
+		ev.eval();
+		ev.class(if hist.var { "store:var_size_nonprunable_histories" } else { "store:fixed_size_prunable_histories" });
+		if st.reopen > 0 {
+			ev.class("store:histories_with_reopen");
+		}
+		if st.discard > 0 {
+			ev.class("store:histories_with_discard");
+		}
+		if st.rewind > 0 {
+			ev.class("store:histories_with_rewind");
+		}
+		if st.max_rewind_depth >= 4 {
+			ev.class("store:histories_with_rewind_depth_ge4");
+		}
+		if st.rewind_noop > 0 {
+			ev.class("store:histories_with_rewind_to_tip");
+		}
+		if st.multi_block_units > 0 {
+			ev.class("store:histories_with_multi_block_unit");
+		}
+		if st.eff_compactions > 0 {
+			ev.class("store:histories_with_effective_compaction");
+		}
+		if st.eff_compactions >= 2 {
+			ev.class("store:histories_with_second_effective_compaction");
+		}
+		if st.whole_peak_pruned {
+			ev.class("store:histories_with_whole_peak_pruned");
+		}
+		if st.size_file_rebuilt > 0 {
+			ev.class("store:var_histories_with_size_file_rebuilt_on_open");
+		}
+		if hist.var && st.rewind > 0 {
+			ev.class("store:var_histories_with_rewind");
+		}
+		ev.class(match st.max_leaves {
+			0..=31 => "store:max_leaves_0_31",
+			32..=127 => "store:max_leaves_32_127",
+			128..=255 => "store:max_leaves_128_255",
+			_ => "store:max_leaves_256_400",
+		});
+		if st.readded_removed_again > 0 {
+			ev.class("store:histories_with_readded_leaf_removed_again");
+		}
+		if st.rewind_unspends_kept > 0 {
+			ev.class("store:histories_rewind_unspends_leaf_kept_by_compaction");
+		}
+		ev.class_n("store:compactions", st.compactions as u64);
+		ev.class_n("store:hashes_physically_removed", st.hashes_removed);
+		ev.class_n("store:leaves_removed", st.removed_total);
+		ev.class_n("store:state_checks_inside_unit", st.unsynced_checks as u64);
+		let nontrivial = st.eff_compactions > 0 && (st.rewind_unspends_kept > 0 || st.second_after_appends);
+		if nontrivial {
+			ev.nontrivial(&(
+				"store",
+				st.rewind_unspends_kept.min(4),
+				st.second_after_appends,
+				st.eff_compactions.min(4),
+				64 - st.max_leaves.leading_zeros(),
+				64 - st.hashes_removed.leading_zeros(),
+				st.whole_peak_pruned,
+				st.reopen > 0,
+				st.discard > 0,
+				st.readded_removed_again.min(3),
+				st.max_rewind_depth.min(6),
+			));
+			ev.class("store:nontrivial_histories");
+			ev.sample("store", || serde_json::to_value(hist).unwrap());
+		} else if hist.var && st.rewind > 0 && st.reopen > 0 {
+			ev.sample("store-var", || serde_json::to_value(hist).unwrap());
+		}
+	}
+	Ok(())
+}
+
+// ---------------------------------------------------------------- part "chain"
+
+#[derive(Clone, Debug, Serialize, Deserialize)]
+pub struct Second {
+	/// every k-th filler block carries a spend (0: none)
+	pub spend_every: u8,
+	pub depth: u8,
+	pub reopen: bool,
+}
+
+#[derive(Clone, Debug, Serialize, Deserialize)]
+pub struct ChainCase {
+	/// blocks added on top of the 90-block base chain before the compaction
+	pub pre: Vec<RawBlock>,
+	/// fork point: this many blocks below the head at compaction time (clamped to the horizon)
+	pub depth: u8,
+	/// the fork run has depth + extra blocks
+	pub extra: u8,
+	/// contents of the fork blocks (cycled)
+	pub fork: Vec<RawBlock>,
+	/// close and reopen the chain between the compaction and the fork
+	pub reopen: bool,
+	/// blocks added after the reorg
+	pub post: Vec<RawBlock>,
+	/// extend by >= 60 blocks, compact again, fork again
+	pub second: Option<Second>,
+}
+
+fn chain_tx() -> impl Strategy<Value = RawTx> {
+	(
+		// spendable outputs are listed newest first: small picks spend outputs younger
+		// than the horizon, large picks outputs older than the horizon
+		prop::collection::vec(prop_oneof![3 => 0u16..6000, 3 => 40000u16..=65535, 1 => any::<u16>()], 1..=3),
+		prop::collection::vec((0u8..6, 0u8..5).prop_map(|(amt, key)| RawOut { kind: 0, amt, key }), 1..=3),
+		0u8..3,
+		any::<bool>(),
+	)
+		.prop_map(|(ins, outs, fee, zero_offset)| RawTx {
+			ins,
+			outs,
+			fee,
+			kern: 0,
+			zero_offset,
+			chain_prev: false,
+		})
+}
+
+fn chain_block(cb_keys: std::ops::Range<u8>) -> impl Strategy<Value = RawBlock> {
+	(cb_keys, prop_oneof![1 => Just(0usize), 4 => Just(1usize), 2 => Just(2usize)].prop_flat_map(|n| prop::collection::vec(chain_tx(), n))).prop_map(|(cb_key, txs)| RawBlock {
+		parent: 0,
+		cb_key,
+		txs,
+		dt: 60,
+		diff: 1,
+		neg: Neg::None,
+		neg_pick: 0,
+	})
+}
+
+pub fn chain_strategy(second_weight: f64) -> impl Strategy<Value = ChainCase> {
+	(
+		prop::collection::vec(chain_block(0..2), 0..=5),
+		prop_oneof![3 => 1u8..=5, 3 => 6u8..=17, 2 => 18u8..=20],
+		1u8..=2,
+		prop::collection::vec(chain_block(2..3), 1..=4),
+		prop::bool::weighted(0.4),
+		prop::collection::vec(chain_block(0..2), 0..=2),
+		prop::option::weighted(second_weight, (0u8..4, 1u8..=20, any::<bool>()).prop_map(|(spend_every, depth, reopen)| Second { spend_every, depth, reopen })),
+	)
+		.prop_map(|(pre, depth, extra, fork, reopen, post, second)| ChainCase {
+			pre,
+			depth,
+			extra,
+			fork,
+			reopen,
+			post,
+			second,
+		})
+}
+
+type RootsT = (Hash, Hash, Hash, Hash);
+
+fn roots_of(cb: &ChainBox) -> Result<RootsT, Fail> {
+	let ts = cb.c().txhashset();
+	let ts = ts.read();
+	let r = ts.roots().map_err(|e| Fail::new("roots-err", format!("{:?}", e)))?;
+	Ok((r.output_roots.pmmr_root, r.output_roots.bitmap_root, r.rproof_root, r.kernel_root))
+}
+
+struct ChainRun {
+	cb: ChainBox,
+	w: crate::world::gen::World,
+	head: usize,
+	reorgs: u32,
+	max_reorg_depth: u64,
+	blocks: u32,
+	spends: u32,
+	status_differs: bool,
+}
+
+impl ChainRun {
+	/// add one model-valid block; it must be accepted, and the chain's fork choice must follow total work
+	fn add(&mut self, raw: &RawBlock, what: &str) -> PResult {
+		let head_h = self.w.nodes[self.head].height();
+		let built = self.w.build(self.cb.c(), raw, self.head).map_err(|e| {
+			// the builder roots the block with Chain::set_txhashset_roots, i.e. the chain itself rewinds to the
+			// fork point and applies the block in a read-only extension: if that fails for a model-valid
+			// block the chain cannot follow this fork any more
+			if e.contains("could not root a model-valid block") {
+				Fail::new(
+					if raw.parent == 0 { "valid-block-cannot-be-rooted" } else { "inhorizon-fork-cannot-be-applied" },
+					format!("{} (head h={}, min parent height {}): {}", what, head_h, self.w.min_parent_height, e),
+				)
+			} else {
+				Fail::new("harness:builder", format!("{}: {}", what, e))
+			}
+		})?;
+		let model = match &built.verdict {
+			Ok(m) => m.clone(),
+			Err(e) => fail!("harness:builder-invalid", "{}: builder produced a block the model refuses: {:?}", what, e),
+		};
+		let old_head = self.head;
+		let old_td = self.w.nodes[old_head].block.header.total_difficulty();
+		let res = self.cb.c().process_block(built.block.clone(), opts(PowMode::Real));
+		match res {
+			Err(e) => {
+				let on_head = built.parent == old_head;
+				fail!(
+					if on_head { "valid-block-rejected" } else { "inhorizon-fork-block-rejected" },
+					"{}: model-valid block h={} ({} inputs, parent node {} at h={}, head h={}) rejected: {}",
+					what,
+					built.block.header.height,
+					built.n_spends,
+					built.parent,
+					self.w.nodes[built.parent].height(),
+					self.w.nodes[old_head].height(),
+					err_name(&e)
+				);
+			}
+			Ok(tip) => {
+				let n = self.w.push(&built, model);
+				self.blocks += 1;
+				self.spends += built.n_spends as u32;
+				let more_work = built.block.header.total_difficulty() > old_td;
+				ensure!(
+					tip.is_some() == more_work,
+					if more_work { "reorg-refused" } else { "head-moved-without-more-work" },
+					"{}: block h={} total difficulty {} vs head {}: process_block returned tip {:?}",
+					what,
+					built.block.header.height,
+					built.block.header.total_difficulty(),
+					old_td,
+					tip.map(|t| t.height)
+				);
+				if tip.is_some() {
+					self.head = n;
+					if built.parent != old_head {
+						self.reorgs += 1;
+						let mut a = old_head;
+						let mut d = 0;
+						while !self.w.is_ancestor(a, n) {
+							a = self.w.nodes[a].parent;
+							d += 1;
+						}
+						self.max_reorg_depth = self.max_reorg_depth.max(d);
+						let (ma, mb) = (&self.w.nodes[old_head].model.utxo, &self.w.nodes[n].model.utxo);
+						if ma.keys().any(|k| !mb.contains_key(k)) {
+							self.status_differs = true;
+						}
+					}
+				}
+			}
+		}
+		Ok(())
+	}
+
+	/// compaction with the before/after comparison of the statement
+	fn compact(&mut self, what: &str) -> Result<bool, Fail> {
+		let cb = &self.cb;
+		c02::scan(cb, &self.w, &format!("{}: before compaction", what))?;
+		let head0 = cb.c().head().map_err(|e| Fail::new("head-err", format!("{:?}", e)))?;
+		let hhead0 = cb.c().header_head().map_err(|e| Fail::new("head-err", format!("{:?}", e)))?;
+		let roots0 = roots_of(cb)?;
+		let val0 = cb.c().validate(false);
+		if let Err(e) = &val0 {
+			fail!("validate-failed-before-compaction", "{}: validate(false) before compaction: {:?}", what, e);
+		}
+		let tail0 = cb.c().tail().map(|t| t.height).unwrap_or(0);
+		cb.c().compact().map_err(|e| Fail::new("compact-err", format!("{}: {:?}", what, e)))?;
+		let tail1 = cb.c().tail().map(|t| t.height).unwrap_or(0);
+		let head1 = cb.c().head().map_err(|e| Fail::new("head-err", format!("{:?}", e)))?;
+		let hhead1 = cb.c().header_head().map_err(|e| Fail::new("head-err", format!("{:?}", e)))?;
+		ensure!(
+			head0.last_block_h == head1.last_block_h && head0.height == head1.height && head0.total_difficulty == head1.total_difficulty,
+			"compaction-changed-head",
+			"{}: head before {:?} after {:?}",
+			what,
+			head0,
+			head1
+		);
+		ensure!(hhead0.last_block_h == hhead1.last_block_h, "compaction-changed-header-head", "{}: header head before {:?} after {:?}", what, hhead0, hhead1);
+		let roots1 = roots_of(cb)?;
+		ensure!(roots0 == roots1, "compaction-changed-roots", "{}: roots before {:?} after {:?}", what, roots0, roots1);
+		c02::scan(cb, &self.w, &format!("{}: after compaction", what))?;
+		if let Err(e) = cb.c().validate(false) {
+			fail!("compaction-broke-validation", "{}: validate(false) Ok before compaction, after: {:?}", what, e);
+		}
+		let effective = tail1 != tail0;
+		if effective {
+			let horizon = grin_core::global::cut_through_horizon() as u64;
+			let hh = head1.height;
+			self.w.min_parent_height = self.w.min_parent_height.max(hh.saturating_sub(horizon));
+		}
+		Ok(effective)
+	}
+
+	/// a fork run that branches `depth` blocks below the head (inside the horizon) and has `len` blocks
+	fn fork_run(&mut self, depth: u8, len: usize, contents: &[RawBlock], what: &str) -> Result<u64, Fail> {
+		let hh = self.w.nodes[self.head].height();
+		let d = (depth as u64).min(hh.saturating_sub(self.w.min_parent_height)).max(1);
+		for i in 0..len {
+			let mut raw = contents[i % contents.len()].clone();
+			raw.parent = if i == 0 { 100 + d as u8 } else { 1 };
+			raw.cb_key = 2;
+			raw.neg = Neg::None;
+			self.add(&raw, &format!("{}: fork block {} of {} (fork point {} below the head h={})", what, i + 1, len, d, hh))?;
+		}
+		Ok(d)
+	}
+}
+
+pub fn check_chain(ctx: &Ctx, case: &ChainCase, counting: bool) -> PResult {
+	init_thread();
+	let (cb, w, head) = c02::open_case(ctx, true)?;
+	let mut run = ChainRun {
+		cb,
+		w,
+		head,
+		reorgs: 0,
+		max_reorg_depth: 0,
+		blocks: 0,
+		spends: 0,
+		status_differs: false,
+	};
+	for (i, raw) in case.pre.iter().enumerate() {
+		let mut raw = raw.clone();
+		raw.parent = 0;
+		raw.neg = Neg::None;
+		run.add(&raw, &format!("pre block {}", i))?;
+	}
+	let spends_pre = run.spends;
+	let eff1 = run.compact("first compaction")?;
+	if case.reopen {
+		let roots = roots_of(&run.cb)?;
+		run.cb.reopen_classified(false)?;
+		ensure!(roots_of(&run.cb)? == roots, "reopen-after-compaction-changed-roots", "roots differ after reopening the compacted chain");
+		c02::scan(&run.cb, &run.w, "after reopen of the compacted chain")?;
+	}
+	let reorgs0 = run.reorgs;
+	let d = run.fork_run(case.depth, case.depth as usize + case.extra.max(1) as usize, &case.fork, "after first compaction")?;
+	let reorg1 = run.reorgs > reorgs0;
+	c02::scan(&run.cb, &run.w, "after the in-horizon fork run")?;
+	if let Err(e) = run.cb.c().validate(false) {
+		fail!("validate-failed-after-reorg", "validate(false) after the in-horizon reorg: {:?}", e);
+	}
+	for (i, raw) in case.post.iter().enumerate() {
+		let mut raw = raw.clone();
+		raw.parent = 0;
+		raw.neg = Neg::None;
+		run.add(&raw, &format!("post block {}", i))?;
+	}
+	if !case.post.is_empty() {
+		c02::scan(&run.cb, &run.w, "after post blocks")?;
+	}
+	let mut eff2 = false;
+	let mut reorg2 = false;
+	if let Some(sec) = &case.second {
+		// Chain::compact runs again once head >= tail + horizon + 60
+		let horizon = grin_core::global::cut_through_horizon() as u64;
+		let mut k = 0u64;
+		loop {
+			let tail = run.cb.c().tail().map(|t| t.height).unwrap_or(0);
+			let hh = run.w.nodes[run.head].height();
+			if hh >= tail + horizon + 60 + 2 || k > 200 {
+				break;
+			}
+			let txs = if sec.spend_every > 0 && k % sec.spend_every as u64 == 0 {
+				vec![RawTx {
+					ins: vec![if k % 2 == 0 { 500 } else { 60000 }],
+					outs: vec![RawOut { kind: 0, amt: (k % 6) as u8, key: (k % 5) as u8 }, RawOut { kind: 0, amt: 0, key: ((k + 1) % 5) as u8 }],
+					fee: 0,
+					kern: 0,
+					zero_offset: k % 2 == 0,
+					chain_prev: false,
+				}]
+			} else {
+				vec![]
+			};
+			run.add(
+				&RawBlock {
+					parent: 0,
+					cb_key: 0,
+					txs,
+					dt: 60,
+					diff: 1,
+					neg: Neg::None,
+					neg_pick: 0,
+				},
+				&format!("filler block {}", k),
+			)?;
+			k += 1;
+		}
+		eff2 = run.compact("second compaction")?;
+		if sec.reopen {
+			run.cb.reopen_classified(false)?;
+			c02::scan(&run.cb, &run.w, "after reopen of the twice compacted chain")?;
+		}
+		let r0 = run.reorgs;
+		run.fork_run(sec.depth, sec.depth as usize + 1, &case.fork, "after second compaction")?;
+		reorg2 = run.reorgs > r0;
+		c02::scan(&run.cb, &run.w, "after the fork run following the second compaction")?;
+		if let Err(e) = run.cb.c().validate(false) {
+			fail!("validate-failed-after-reorg", "validate(false) after the reorg following the second compaction: {:?}", e);
+		}
+	}
+	if counting {
+		let ev = &ctx.ev;
+		ev.eval();
+		ev.class("chain:cases");
+		if eff1 {
+			ev.class("chain:first_compaction_effective");
+		}
+		if reorg1 {
+			ev.class("chain:reorg_after_compaction");
+		}
+		if reorg1 && d >= 10 {
+			ev.class("chain:reorg_depth_ge10_after_compaction");
+		}
+		if reorg1 && d == grin_core::global::cut_through_horizon() as u64 {
+			ev.class("chain:reorg_from_the_horizon_block");
+		}
+		if case.reopen {
+			ev.class("chain:reopen_between_compaction_and_reorg");
+		}
+		if eff2 {
+			ev.class("chain:second_compaction_effective");
+		}
+		if reorg2 {
+			ev.class("chain:reorg_after_second_compaction");
+		}
+		ev.class_n("chain:blocks_accepted", run.blocks as u64);
+		ev.class_n("chain:spends_in_accepted_blocks", run.spends as u64);
+		if eff1 && reorg1 && run.status_differs {
+			ev.nontrivial(&("chain", d, case.extra, case.reopen, case.pre.len(), spends_pre.min(8), run.spends.min(16), eff2, reorg2));
+			ev.class("chain:nontrivial_cases");
+			ev.sample("chain", || serde_json::to_value(case).unwrap());
+		}
+	}
+	Ok(())
+}
+
+// ---------------------------------------------------------------- entry points
+
+pub fn run(ctx: &Ctx) -> HResult<()> {
+	init_global();
+	let ev = &ctx.ev;
+	ev.rule("part store: histories (<=40 steps, <=400 leaves) of units of work [stepwise rewind to an earlier block boundary]? ; blocks (appends, then removals of live older leaves in shaped patterns: sibling pair / whole subtree of height 1-4 / whole peak / alternating leaves / leaves re-added by a rewind / everything before a boundary / a few / nothing) ; sync|discard, interleaved with check_compact at an earlier boundary and reopen, on a prunable FixElem backend (80%) or a non-prunable VarElem backend (20%, no removals/compaction); after every unit (before and after sync/discard), compaction and reopen the whole observable state (root, size, peaks, data+hash+Merkle proof of every live leaf, None for removed leaves, leaf set, validate) is compared with an unpruned reference (refmmr, own blake2b). Non-trivial store history = a compaction that physically removed >=1 hash followed by a rewind that un-spends a leaf lying before that cutoff (kept only because of rewind_rm_pos), or by appends and a second effective compaction; distinct by (un-spending rewinds, second compaction, #effective compactions, log2 leaves, log2 hashes removed, whole peak pruned, reopen, discard, re-added leaf removed again, rewind depth). part chain: base chain (90 real-PoW blocks) + blocks spending outputs older and younger than the horizon, Chain::compact (head/roots/unspent scan/validate(false) before=after), optional reopen, fork run from 1..20 blocks below the head with more work (every block must be accepted, fork choice must follow total work, scan against the model), optional >=60 more blocks + second compaction + second fork; non-trivial chain case = effective compaction followed by a reorg where some output's status differs between the tips.");
+	ev.assume("usage protocol derived from chain/src/txhashset/txhashset.rs: one PMMR::at(&mut backend, handle.size) per unit (Extension::new); rewind only first in a unit and block by block, each step with the bitmap of the 1-based positions THAT block spent (Extension::rewind -> rewind_single_block -> rewind_mmrs_to_pos; rewinding to the current tip passes an empty bitmap); a block pushes its outputs, then prunes inputs through PMMR::prune, never its own outputs (apply_block, apply_input; verify_cut_through); commit = backend.sync(), rollback = backend.discard() (extending); the handle size is only advanced on commit and is backend.unpruned_size() after open (PMMRHandle::new)");
+	ev.assume("compaction protocol (TxHashSet::compact, Chain::compact): check_compact(cutoff = output_mmr_size of a block on the current branch that is already synced, rewind_rm_pos = OR of the spent-position bitmaps of the blocks after it) only between units; cutoffs never decrease; HORIZON RULE: no later rewind goes below the highest cutoff ever compacted at (the chain never reorganises past its horizon); the variable-size MMR is never pruned or compacted (kernels)");
+	ev.assume("blake2b (blake2-rfc) and the harness's reference forest are trusted; hash collisions are treated as impossible; for the non-prunable backend leaf_pos_iter is unimplemented and n_unpruned_leaves answers from the synced size, so it is only compared at synced points");
+	ev.assume("chain part: the harness's replay model (c02 scan) is the oracle for the unspent set; a fork point exactly horizon blocks below the head counts as inside the horizon (Chain::check_txhashset_needed uses fork_point.height < head - horizon for 'beyond')");
+
+	// part store
+	let cases = ctx.n(4800, 40000);
+	if let Some(fl) = pbt_par(ctx, "store", cases, 16, store_strategy, init_thread, |raw, counting| check_store(ctx, &resolve(raw), counting)) {
+		let hist = resolve(&fl.value);
+		ctx.report("store", &fl.fail.sig, serde_json::to_value(&hist).unwrap(), &fl.fail.msg);
+	}
+	ev.extra("store_wall_s", json!(ctx.start.elapsed().as_secs_f64()));
+
+	// part chain
+	let t1 = std::time::Instant::now();
+	let ccases = ctx.n(32, 320);
+	if let Some((case, f)) = pbt_proc(ctx, "chain", ccases, 16) {
+		ctx.report("chain", &f.sig, case, &f.msg);
+	}
+	ev.extra("chain_wall_s", json!(t1.elapsed().as_secs_f64()));
+
+	for cl in [
+		"store:histories_with_reopen",
+		"store:histories_with_discard",
+		"store:histories_with_rewind",
+		"store:histories_with_effective_compaction",
+		"store:histories_with_second_effective_compaction",
+		"store:histories_with_whole_peak_pruned",
+		"store:var_size_nonprunable_histories",
+		"store:histories_rewind_unspends_leaf_kept_by_compaction",
+		"chain:first_compaction_effective",
+		"chain:reorg_after_compaction",
+	] {
+		if ev.class_count(cl) == 0 {
+			eprintln!("warning: class {} is empty in this run", cl);
+		}
+	}
+	Ok(())
+}
+
+pub fn part(ctx: &Ctx, part: &str, seed: u64, cases: u32) -> Option<(Value, Fail)> {
+	init_global();
+	match part {
+		"chain" => {
+			if let Err(e) = c02::base(ctx) {
+				return Some((json!({}), Fail::new("harness:base", e)));
+			}
+			let strat = chain_strategy(if ctx.quick() { 0.12 } else { 0.25 });
+			run_part(ctx, seed, cases, &strat, |c, counting| check_chain(ctx, c, counting))
+		}
+		_ => None,
+	}
+}
+
+pub fn replay(ctx: &Ctx, part: &str, case: &Value) -> PResult {
+	init_global();
+	match part {
+		"store" => {
+			let hcase: History = serde_json::from_value(case.clone()).map_err(|e| Fail::new("harness:replay-parse", e.to_string()))?;
+			match check_store(ctx, &hcase, false) {
+				Err(f) if f.sig == "harness:bad-history" => {
+					// a stored history that leaves the usage protocol says nothing about the property
+					eprintln!("C08 replay: history is outside the usage protocol and was skipped: {}", f.msg);
+					Ok(())
+				}
+				r => r,
+			}
+		}
+		"chain" => {
+			let c: ChainCase = serde_json::from_value(case.clone()).map_err(|e| Fail::new("harness:replay-parse", e.to_string()))?;
+			check_chain(ctx, &c, false)
+		}
+		_ => Ok(()),
+	}
+}
+
+/// `gv child x C08 <args...>` — unused
 pub fn child(_args: &[String]) -> i32 {
 	2
 }
